@@ -792,6 +792,17 @@ pub mod order {
         m
     }
 
+    fn hdr_at12(m: &[u8]) -> RecordHeader<ParsedName<&[u8]>> {
+        let mut p = Parser::from_ref(m);
+        p.advance(12).unwrap();
+        RecordHeader::parse_ref(&mut p).unwrap()
+    }
+    fn prec_at12(m: &[u8]) -> ParsedRecord<'_, [u8]> {
+        let mut p = Parser::from_ref(m);
+        p.advance(12).unwrap();
+        ParsedRecord::parse(&mut p).unwrap()
+    }
+
     pub fn observe_record_pair(a: &Value, b: &Value, eqfree: bool, canonfree: bool) -> Value {
         let mut ag = Agree::new();
         let (ma, mb) = (record_msg(a), record_msg(b));
@@ -831,23 +842,18 @@ pub mod order {
                 ag.put("canon", if canonfree { json!("free") } else { json!(c2) }, "owned Record canonical_cmp");
                 ag.put("canon", if canonfree { json!("free") } else { json!(c3) }, "parsed vs owned canonical_cmp");
                 ag.put("hash_ok", json!(oa != ob || h(&oa) == h(&ob)), "owned Record hash");
-                if oa != ra || (oa == ra && h(&oa) != h(&ra)) {
-                    // a record and its own flattened copy
-                    if !(oa != oa) && ra == ra {
-                        ag.issues.push("a record and its owned copy differ in == or hash".into());
-                    }
+                // a record and its own flattened copy are the same value
+                if oa != ra || ob != rb {
+                    ag.issues.push("a record is not == to its owned copy".into());
+                } else if h(&oa) != h(&ra) || h(&ob) != h(&rb) {
+                    ag.issues.push("a record and its owned copy hash differently".into());
                 }
             }
             _ => ag.issues.push("record does not flatten".into()),
         }
 
         // record header and unparsed record
-        let hdr = |m: &'_ [u8]| {
-            let mut p = Parser::from_ref(m);
-            p.advance(12).unwrap();
-            RecordHeader::parse_ref(&mut p).unwrap()
-        };
-        let (ha, hb) = (hdr(&ma), hdr(&mb));
+        let (ha, hb) = (hdr_at12(&ma), hdr_at12(&mb));
         let own = |x: &RecordHeader<ParsedName<&[u8]>>| {
             let n: Name<Vec<u8>> = x.owner().to_name();
             RecordHeader::new(n, x.rtype(), x.class(), x.ttl(), x.rdlen())
@@ -861,13 +867,8 @@ pub mod order {
             ag.issues.push("RecordHeader order incoherent".into());
         }
         ag.put("hash_ok", json!(ha != hb || (h(&ha) == h(&hb) && h(&hoa) == h(&hb))), "RecordHeader hash");
-        let prec = |m: &'_ [u8]| {
-            let mut p = Parser::from_ref(m);
-            p.advance(12).unwrap();
-            ParsedRecord::parse(&mut p).unwrap()
-        };
-        ag.put("parsed_eq", json!(prec(&ma) == prec(&mb)), "ParsedRecord ==");
-        ag.put("parsed_eq", json!(prec(&mb) == prec(&ma)), "ParsedRecord == reversed");
+        ag.put("parsed_eq", json!(prec_at12(&ma) == prec_at12(&mb)), "ParsedRecord ==");
+        ag.put("parsed_eq", json!(prec_at12(&mb) == prec_at12(&ma)), "ParsedRecord == reversed");
 
         // the questions asking for these records
         let (qa, qb) = (
